@@ -231,9 +231,10 @@ class Compress(Contract):
         z0 = old.get(a.self, '_compressobj')
         log = extworld.zlog(st, z0)[len(old.ghost.get(('zlog', z0.key), [])):]
         shape = (len(log) == 2 and log[0][0] == 'compress' and log[1][0] == 'flush' and log[1][1] == zlib.Z_SYNC_FLUSH)
-        out = [('deflater-fed-payload-then-sync-flush-exactly-once', BoolVal(shape)),
-               ('result-is-immutable-bytes', BoolVal(isinstance(res, SBytes) and res.kind == BYTES))]
-        if shape and isinstance(res, SBytes):
+        out = [('result-is-immutable-bytes', BoolVal(isinstance(res, SBytes) and res.kind == BYTES))]
+        if ip.reading == 'body':
+            out.append(('deflater-fed-payload-then-sync-flush-exactly-once', BoolVal(shape)))
+        if ip.reading == 'body' and shape and isinstance(res, SBytes):
             out.append(('deflater-input-is-the-payload', beq(log[0][1], ip.bytes_of(a.payload))))
             whole = cat(BYTES, [log[0][2], log[1][2]])
             out.append(('result-is-zlib-output-minus-4-byte-tail', beq(res, bslice(whole, None, whole.n - 4))))
